@@ -170,6 +170,46 @@ func (e *Exec) builtin(st *State, fr *Frame, x *ssa.Call, b builtinV, args []Val
 			}
 			return one(st, fr)
 		}
+	case "SliceData":
+		sl := args[0].(SliceV)
+		if sl.Base.IsNil() {
+			fr.locals[x] = nilPtr
+		} else {
+			fr.locals[x] = sl.Base.With(PathElem{Field: -1, Idx: sl.Off})
+		}
+		return one(st, fr)
+	case "String":
+		p := args[0].(Ptr)
+		n := e.idx64(args[1].(BV), b.c.Args[1].Type())
+		if p.IsNil() {
+			fr.locals[x] = StringV{C: czero, Off: tc.Int(0), Len: tc.Int(0)}
+			return one(st, fr)
+		}
+		last := p.Path[len(p.Path)-1]
+		if last.Idx == nil {
+			panic(unsupported("unsafe.String of non-element pointer"))
+		}
+		base := Ptr{Obj: p.Obj, Path: p.Path[:len(p.Path)-1]}
+		fr.locals[x] = StringV{C: e.containerContent(st, base), Off: last.Idx, Len: n}
+		return one(st, fr)
+	case "StringData":
+		s := args[0].(StringV)
+		sl := e.stringToSlice(st, s)
+		fr.locals[x] = sl.Base.With(PathElem{Field: -1, Idx: tc.Int(0)})
+		return one(st, fr)
+	case "Slice":
+		p := args[0].(Ptr)
+		n := e.idx64(args[1].(BV), b.c.Args[1].Type())
+		if p.IsNil() {
+			fr.locals[x] = SliceV{Base: nilPtr, Off: tc.Int(0), Len: tc.Int(0), Cap: tc.Int(0)}
+			return one(st, fr)
+		}
+		last := p.Path[len(p.Path)-1]
+		if last.Idx == nil {
+			panic(unsupported("unsafe.Slice of non-element pointer"))
+		}
+		fr.locals[x] = SliceV{Base: Ptr{Obj: p.Obj, Path: p.Path[:len(p.Path)-1]}, Off: last.Idx, Len: n, Cap: n}
+		return one(st, fr)
 	case "ssa:wrapnilchk":
 		p := args[0].(Ptr)
 		if p.IsNil() {
